@@ -36,7 +36,9 @@ func C17(r *eng.Run) {
 	var ops []string
 	for i := 0; i < n; i++ {
 		var name string
-		switch r.T.Int(sim.LOp, 9) {
+		switch r.T.Int(sim.LOp, 10) {
+		case 9:
+			name = c17OwnBuffer(r, &retained)
 		case 8:
 			name = c17UpgraderMultiLine(r, &retained)
 		case 0, 1, 2:
@@ -76,6 +78,9 @@ func c17Handshake(r *eng.Run, retained *[]func() string) string {
 	}
 	t := roundTrip(r, c, s, int64(r.T.U32(sim.LMisc)), DrawSeg(r), DrawSeg(r))
 	name := fmt.Sprintf("handshake(dialer%d,upgrader%d,ext=%d)", c.Debug, s.Kind, s.Ext)
+	if t.Server.ok() != t.Client.ok() {
+		r.FailProp("C11", "peers_disagree_on_success", "server %s but client %s\n  %s\n  %s", t.Server.summary(), t.Client.summary(), c, s)
+	}
 	if !t.Server.ok() || !t.Client.ok() {
 		return name + "=failed"
 	}
@@ -139,7 +144,7 @@ func c17UpgraderMultiLine(r *eng.Run, retained *[]func() string) string {
 	for _, l := range lines[1:] {
 		var parts []string
 		for _, e := range l {
-			parts = append(parts, strings.ReplaceAll(e.String(), ";", "; "))
+			parts = append(parts, e.headerString())
 		}
 		c.Header += "Sec-WebSocket-Extensions: " + strings.Join(parts, ", ") + "\r\n"
 	}
@@ -393,6 +398,40 @@ func c17ClientWriter(r *eng.Run, dst io.Writer, size int) *wsutil.Writer {
 	return wsutil.NewWriterSize(dst, ws.StateClientSide|[]ws.State{0, ws.StateExtended}[r.T.Int(sim.LCfg, 2)], ws.OpBinary, size)
 }
 
+// c17OwnBuffer: a Writer over a buffer the application owns (its capacity
+// happens to be a pool class), flushing disabled, so that a larger write makes
+// the Writer grow away from it. The buffer stays the application's: it reuses
+// it, and nothing the library does later may show in it.
+func c17OwnBuffer(r *eng.Run, retained *[]func() string) string {
+	class := []int{128, 256, 4096}[r.T.Int(sim.LSize, 3)]
+	own := make([]byte, class)
+	dst := NewPipe(r, nil)
+	state := []ws.State{ws.StateServerSide, ws.StateClientSide}[r.T.Int(sim.LSide, 2)]
+	w := wsutil.NewWriterBuffer(dst, state, ws.OpBinary, own)
+	w.DisableFlush()
+	data := patBytes(r.T.U32(sim.LPaySeed), 0, class+1+r.T.Int(sim.LLen, 2*class))
+	if _, err := w.Write(data); err != nil {
+		r.Failf("unexpected_error", "Writer over the application's buffer: Write: %v", err)
+	}
+	if err := w.Flush(); err != nil {
+		r.Failf("unexpected_error", "Writer over the application's buffer: Flush: %v", err)
+	}
+	// The application takes its buffer back for something else.
+	for i := range own {
+		own[i] = 0x77
+	}
+	*retained = append(*retained, func() string {
+		for i, b := range own {
+			if b != 0x77 {
+				return fmt.Sprintf("the %d byte buffer the application lent to NewWriterBuffer (outgrown since) changed at byte %d: 0x%02x", class, i, b)
+			}
+		}
+		return ""
+	})
+	r.Probe("writer_grew_away_from_application_buffer")
+	return fmt.Sprintf("NewWriterBuffer(own %d)+grow", class)
+}
+
 func c17WriteSide(r *eng.Run) string {
 	n := []int{0, 1, 100, 127, 128, 129, 4096, 65536, 65537, 70000}[r.T.Int(sim.LLen, 10)]
 	data := patBytes(r.T.U32(sim.LPaySeed), 0, n)
@@ -402,6 +441,14 @@ func c17WriteSide(r *eng.Run) string {
 	if fail {
 		dst.WFailAt = r.T.Int(sim.LFaultAt, 2)
 		dst.WFailN = r.T.Int(sim.LFaultAt, 3)
+	}
+	// Someone else may be looking at the same payload while it is written
+	// (a broadcast): the observer stands at the destination.
+	during := ""
+	dst.OnWrite = func() {
+		if during == "" && !bytes.Equal(data, keep) {
+			during = firstDiff(data, keep)
+		}
 	}
 	rand.Seed(int64(r.T.U32(sim.LMisc)))
 	which := r.T.Int(sim.LOp, 4)
@@ -430,6 +477,9 @@ func c17WriteSide(r *eng.Run) string {
 	}
 	if !bytes.Equal(data, keep) {
 		r.Failf("caller_slice_modified", "%s(%d bytes, destination failed=%v, err=%v) left the caller's slice modified%s", name, n, dst.WriteFailed(), err, firstDiff(data, keep))
+	}
+	if during != "" {
+		r.Failf("caller_slice_modified", "%s(%d bytes): the caller's slice was not intact while the destination was being written to%s", name, n, during)
 	}
 	sent := append([]byte(nil), dst.Out...)
 	for i := range data {
